@@ -116,9 +116,12 @@ def Wire.parses (w : Wire) : Bool :=
   | some (n, _), none => w.next == .hbh && n == .udp
   | some (n, _), some _ => w.next == .hbh && n == .e2e
 
+def EOpt.received? : EOpt → Option (Nat × List Nat)
+  | .recv t d => some (t, d)
+  | .ownTs => none
+
 /-- The received options among the forwarded ones, in order. -/
-def Wire.received (w : Wire) : List (Nat × List Nat) :=
-  (w.e2e.getD []).filterMap fun | .recv t d => some (t, d) | .ownTs => none
+def Wire.received (w : Wire) : List (Nat × List Nat) := (w.e2e.getD []).filterMap EOpt.received?
 
 /-- `scionLayer.NextHdr` of the received packet. -/
 def recvNext (p : Pkt) : Next := if p.hbh.isSome then .hbh else if p.e2e then .e2e else .udp
@@ -335,6 +338,8 @@ def handleFwdOld (cfg : Cfg) (p : Pkt) : Outcome :=
     `auth` is the data of the first authenticator option (type 2 = `slayers.OptTypeAuthenticator`). -/
 def Pkt.extWF (p : Pkt) : Prop :=
   (p.e2e = false → p.opts = []) ∧ p.auth = (p.opts.find? (fun o => o.1 == 2)).map (·.2)
+
+instance (p : Pkt) : Decidable p.extWF := by unfold Pkt.extWF; infer_instance
 
 /-- Data of the first authenticator option of a forwarded packet. -/
 def Wire.auth (w : Wire) : Option (List Nat) := (w.received.find? (fun o => o.1 == 2)).map (·.2)
